@@ -51,9 +51,18 @@ def buf_pushes(prog, root):
             if c.callee in STRING_MUTATORS_OK:
                 ao = og.of_operand(c.args[1])
                 pushes.append((c, c.callee.split("::")[-1], ao))
+            elif _is_repeat_push(prog, c):
+                # `push_repeated(buf, unit, count)`: count copies of `unit`
+                ao = og.of_operand(c.args[1])
+                pushes.append((c, "push_str*n", ao))
             elif ty.startswith("&mut "):
                 others.append(c)
     return pushes, others
+
+
+def _is_repeat_push(prog, c):
+    import layout
+    return layout.is_repeat_push_helper(prog, c.target)
 
 
 def check_c01(prog, rep, tier, cfg):
@@ -74,12 +83,30 @@ def c01a(prog, rep):
     fe = rb.calls_to("core::iter::traits::iterator::Iterator::for_each")
     tk = rb.calls_to(LANG + "FormattedTokens::tokens")
     ok = len(fe) == 1 and len(tk) == 1
+    consumer = "Iterator::for_each"
+    loop_form = False
     if ok:
         o = Origins(rb, identity=()).of_operand(fe[0].args[0])
         ok = o == {("call", tk[0].bb, LANG + "FormattedTokens::tokens")}
-    rep.check(ok, R, "tokens()->for_each", "reconstruct no longer feeds FormattedTokens::tokens() directly into a single for_each (an adapter could skip, reorder or repeat tokens)",
-              instance={"stream": "FormattedTokens::tokens()", "consumer": "Iterator::for_each"})
-    other_iters = [c.callee for c in rb.calls() if (c.callee or "").startswith("core::iter::") and c.callee != "core::iter::traits::iterator::Iterator::for_each"]
+    elif not fe and len(tk) == 1 and getattr(cl, "virtual_of", None) == rb.npath:
+        # `for (token, data) in formatted_tokens.tokens() { .. }`: the stream goes unadapted into the loop, which leaves only on exhaustion
+        loop_form = True
+        consumer = "for loop"
+        loops = rb.loops()
+        nx = [c for c in rb.calls() if (c.callee or "").endswith("Iterator::next") and c.bb in loops]
+        ok = len(nx) == 1
+        if ok:
+            o = Origins(rb, identity={"core::iter::traits::collect::IntoIterator::into_iter"}).of_operand(nx[0].args[0])
+            ok = o == {("call", tk[0].bb, LANG + "FormattedTokens::tokens")}
+            h, L = nx[0].bb, loops[nx[0].bb]
+            sw = nx[0].t.get("target")
+            rets = set(rb.return_blocks())
+            exits = [(u, v2) for u in L for v2 in rb.succ[u] if v2 not in L and (rb.reach_from(v2, include_start=True) & rets)]
+            ok &= all(u in (h, sw) for u, _ in exits) and bool(exits)
+    rep.check(ok, R, "tokens()->for_each", "reconstruct no longer feeds FormattedTokens::tokens() directly into a single for_each / for loop that runs to exhaustion (an adapter or an early exit could skip, reorder or repeat tokens)",
+              instance={"stream": "FormattedTokens::tokens()", "consumer": consumer})
+    tolerated = {"core::iter::traits::iterator::Iterator::for_each"} | ({"core::iter::traits::collect::IntoIterator::into_iter", "core::iter::traits::iterator::Iterator::next"} if loop_form else set())
+    other_iters = [c.callee for c in rb.calls() if (c.callee or "").startswith("core::iter::") and c.callee not in tolerated]
     rep.check(not other_iters, R, "no-adapters", "iterator adapters in reconstruct: %s" % other_iters)
     tb = prog.body(LANG + "FormattedTokens::tokens")
     if rep.check(tb is not None, R, "anchor:tokens()", "FormattedTokens::tokens not found"):
@@ -105,7 +132,8 @@ def c01a(prog, rep):
     for (c, kind, ao) in pushes:
         if any(x[0] == "call" and x[2] == GET_CONTENT for x in ao):
             continue
-        good = bool(ao) and all((x[0] == "call" and x[2] in BLANK_SOURCES) or (x[0] == "const" and x[1] == "char" and x[2] == 32) for x in ao)
+        good = bool(ao) and all((x[0] == "call" and x[2] in BLANK_SOURCES) or (x[0] == "const" and x[1] == "char" and x[2] == 32)
+                                or (x[0] == "const" and x[1] == "str" and isinstance(x[2], str) and x[2] != "" and all(ord(ch) <= 0x20 or ord(ch) == 0x3000 for ch in x[2])) for x in ao)
         nblank += 1 if good else 0
         rep.check(good, R, "blank-push:%s:%s" % (short(c.body.npath).split("::")[-1], sorted(x[2] if x[0] == "call" else str(x) for x in ao)),
                   "reconstruct pushes something other than token content or blank strings into the output: origins %s" % sorted(map(str, ao)), where=c.where(),
